@@ -235,10 +235,21 @@ def gen_simple_case(rng, tier):
     if gs["vars"] and rng.random() < 0.5:
         alld = sorted({d for v in gs["vars"].values() for d in v["dims"]})
         spec["lazy_ds"] = gen_chunks(rng, alld, sizes)
-    if opname in STENCIL_OPS + ["cumsum"] and rng.random() < 0.2:
-        other = rng.choice([o for o in STENCIL_OPS if o != opname])
-        kw2 = {k: v for k, v in op["kw"].items() if k in ("to", "boundary", "fill_value")}
-        spec["pair"] = {"name": other, "axis": op["axis"], "kw": kw2}
+    if opname in STENCIL_OPS + ["cumsum"] and rng.random() < 0.3:
+        # F5 shared compute: a second lazy result computed in the same graph
+        variant = rng.choice(["other-op", "other-data", "other-kwargs"])
+        kw2 = {k: v for k, v in op["kw"].items() if k in ("to", "boundary", "fill_value", "metric_weighted")}
+        if variant == "other-op":
+            other = rng.choice([o for o in STENCIL_OPS if o != opname])
+            kw2.pop("metric_weighted", None)
+            spec["pair"] = {"name": other, "axis": op["axis"], "kw": kw2}
+        elif variant == "other-data":
+            spec["pair"] = {"name": opname, "axis": op["axis"], "kw": dict(op["kw"]), "data_seed": rng.randrange(10**6)}
+        else:
+            kw2 = dict(op["kw"])
+            kw2["boundary"] = rng.choice(["fill", "extend", "periodic"])
+            kw2["fill_value"] = float(rng.randint(4, 9))
+            spec["pair"] = {"name": opname, "axis": op["axis"], "kw": kw2}
     return spec
 
 
@@ -322,6 +333,8 @@ def gen_face_case(rng, tier):
     else:
         F = rng.randint(2, 6 if big else 5)
         links = worlds.random_reciprocal_links(rng, F)
+    if rng.random() < 0.4:
+        links = worlds.sparsify(rng, links)
     other = rng.choice(["left", "left", "right"])
     axes = {"X": {"n": N, "pos": {"center": "xc", other: "xg"}},
             "Y": {"n": N, "pos": {"center": "yc", other: "yg"}}}
@@ -384,6 +397,8 @@ def gen_face_case(rng, tier):
             other_op = rng.choice([o for o in STENCIL_OPS if o != opname])
             spec["pair"] = {"name": other_op, "axis": axis,
                             "kw": {k: v for k, v in kw.items() if k in ("boundary", "fill_value")}}
+            if rng.random() < 0.5:
+                spec["pair"] = {"name": opname, "axis": axis, "kw": dict(kw), "data_seed": rng.randrange(10**6)}
     spec["lazy_ds"] = None
     return spec
 
@@ -478,13 +493,54 @@ def snap_result(res):
         for n, c in res.coords.items():
             coords[str(n)] = (tuple(c.dims), core.array_digest(np.asarray(c.values)), sorted((str(k), repr(v)) for k, v in c.attrs.items()))
         return {"dims": tuple(res.dims), "dtype": str(vals.dtype), "shape": tuple(vals.shape),
-                "values": core.array_digest(vals), "coords": coords,
+                "values": _Vals(vals), "coords": coords,
                 "name": res.name, "attrs": sorted((str(k), repr(v)) for k, v in res.attrs.items())}
     if isinstance(res, dict):
         return {"dict": {k: snap_result(v) for k, v in res.items()}}
     if isinstance(res, (tuple, list)):
         return {"seq": [snap_result(v) for v in res]}
     return {"other": repr(res)}
+
+
+class _Vals:
+    """Array values compared up to floating-point reassociation.
+
+    Chunked reductions (dask cumsum / sum) add in another order than numpy.
+    With integer-valued data and dyadic metrics every intermediate is exact,
+    but a metric *interpolated* between two dyadic values (e.g. (4+1)/2 = 2.5)
+    makes a division inexact, and a later chunked cumsum of such values differs
+    from the in-memory one in the last bits.  That is not a different answer:
+    values are compared with a relative tolerance of 1e-10 (float32: 1e-4),
+    NaN placement, shape and dtype exactly."""
+
+    def __init__(self, a):
+        self.a = np.asarray(a)
+
+    def __eq__(self, other):
+        a, b = self.a, other.a
+        if a.shape != b.shape or a.dtype != b.dtype:
+            return False
+        if a.dtype.kind != "f":
+            return bool(np.array_equal(a, b))
+        na, nb = np.isnan(a), np.isnan(b)
+        if not np.array_equal(na, nb):
+            return False
+        if not np.array_equal(np.isinf(a), np.isinf(b)):
+            return False
+        if a.size == 0:
+            return True
+        fin = np.isfinite(a) & np.isfinite(b)
+        if not np.array_equal(a[~fin & ~na], b[~fin & ~nb]):
+            return False
+        rtol = 1e-4 if a.dtype == np.float32 else 1e-10
+        scale = float(np.max(np.abs(a[fin]))) if fin.any() else 0.0
+        return bool(np.all(np.abs(a[fin] - b[fin]) <= rtol * (np.abs(a[fin]) + scale)))
+
+    def __ne__(self, other):
+        return not self.__eq__(other)
+
+    def __repr__(self):
+        return np.array2string(self.a, threshold=40, precision=6).replace("\n", " ")
 
 
 def first_diff(a, b):
@@ -641,15 +697,13 @@ def features(spec):
                 for ch in (chunks.get(d), (chunks2 or {}).get(d)):
                     if ch and len(ch) > 1 and (max(l, u) > min(ch)):
                         sub.append("width-exceeds-chunk")
-            if op.get("nin") == 2:
-                core_dims = [gs["axes"][a]["pos"][op["frompos"][a]] for a in op["frompos"]]
-                if chunks2 is not None and any(chunks.get(d) != chunks2.get(d) for d in core_dims):
-                    sub.append("core-chunks-differ")
-                if spec.get("input2") and len(spec["input2"]["dims"]) != len(spec["input"]["dims"]):
+            if op.get("nin") == 2 and spec.get("input2"):
+                d1, d2 = list(spec["input"]["dims"]), list(spec["input2"]["dims"])
+                common = [d for d in d1 if d in d2]
+                if chunks2 is not None and any(list(chunks.get(d, [])) != list(chunks2.get(d, [])) for d in common):
+                    sub.append("chunks-differ")
+                if len(d1) != len(d2):
                     sub.append("ndim-differ")
-                if spec.get("input2") and list(spec["input2"]["dims"]) != list(spec["input"]["dims"]) or (
-                        chunks2 is not None and chunks2 != chunks):
-                    sub.append("layouts-differ")
         f.append("+".join(sorted(set(sub))) or "plain")
     return "/".join(f)
 
@@ -696,12 +750,17 @@ def _run_case(spec, cnt=None):
             cnt.c["eager_refused"] += 1
             return None, info
         da, da2 = build_inputs(spec, ds)
+        da_p = da
+        if spec.get("pair") and spec["pair"].get("data_seed") is not None:
+            alt = copy.deepcopy(spec["input"])
+            alt["data"] = dict(alt["data"], gen="randint", seed=spec["pair"]["data_seed"])
+            da_p = worlds.attach_coords(worlds.build_da(dict(ds.sizes), alt), ds)
         # ---- eager
         eager_exc = None
         try:
             eager = [call_op(grid, op, da, da2, spec.get("vector"), eager=True)]
             if spec.get("pair"):
-                eager.append(call_op(grid, spec["pair"], da, da2, spec.get("vector"), eager=True))
+                eager.append(call_op(grid, spec["pair"], da_p, da2, spec.get("vector"), eager=True))
             eager = compute_all(eager)  # (transform-style ops may return dask even eagerly)
             eager_snap = [snap_result(r) for r in eager]
         except Exception as e:  # noqa
@@ -709,6 +768,7 @@ def _run_case(spec, cnt=None):
         # ---- lazy inputs
         chunks = {d: tuple(c) for d, c in (spec.get("chunks") or {}).items()}
         lda = da.chunk(chunks) if chunks is not None else da.chunk()
+        lda_p = lda if da_p is da else da_p.chunk(chunks)
         lda2 = None
         if da2 is not None:
             ch2 = {d: tuple(c) for d, c in (spec.get("chunks2") or {}).items()}
@@ -728,7 +788,7 @@ def _run_case(spec, cnt=None):
             try:
                 lazy = [call_op(lgrid, op, lda, lda2, spec.get("vector"))]
                 if spec.get("pair"):
-                    lazy.append(call_op(lgrid, spec["pair"], lda, lda2, spec.get("vector")))
+                    lazy.append(call_op(lgrid, spec["pair"], lda_p, lda2, spec.get("vector")))
             except Exception as e:  # noqa
                 build_exc = e
         cnt.c["lazy_builds"] += 1
